@@ -63,6 +63,10 @@ def _parse_pattern(toks, matcher):
             out.append(("attrvar",))
             i += 1
             continue
+        if _is(t, "$") and _MULTI and (i + 1 >= n or not (toks[i + 1].kind == "ident" or _is(toks[i + 1], "("))):
+            out.append(("tok", t))      # a literal `$` (the argument of a `$dollar:tt` parameter)
+            i += 1
+            continue
         if _is(t, "$"):
             nx = toks[i + 1]
             if _is(nx, "("):
@@ -99,6 +103,9 @@ def _parse_pattern(toks, matcher):
     return out
 
 
+_MULTI = False      # set while expand_multi runs (several rules per macro, expr fragments of several tokens)
+
+
 def _match_frag(frag, toks, i):
     """tokens of one fragment starting at toks[i] -> end index, or None"""
     n = len(toks)
@@ -109,6 +116,14 @@ def _match_frag(frag, toks, i):
         return i + 1 if t.kind == "ident" else None
     if frag == "literal":
         return i + 1 if t.kind in ("int", "str", "char", "byte", "bstr", "float") else None
+    if frag == "expr" and _MULTI:
+        # expand_multi: an expression is every token up to a `,` `;` `=>` outside groups (rustc's follow set of expr)
+        j = i
+        while j < n and not (toks[j].kind == "punct" and toks[j].text in (",", ";", "=>")):
+            if toks[j].kind == "punct" and toks[j].text in (")", "]", "}"):
+                break
+            j = _group_end(toks, j) + 1 if toks[j].kind == "punct" and toks[j].text in OPEN else j + 1
+        return j if j > i else None
     if frag in ("path", "ty", "expr"):
         if frag == "expr" and t.kind in ("int", "str", "char", "byte", "bstr"):
             return i + 1
@@ -117,6 +132,16 @@ def _match_frag(frag, toks, i):
         j = i + 1
         while j + 1 < n and _is(toks[j], "::") and toks[j + 1].kind == "ident":
             j += 2
+        if frag == "ty" and _MULTI and j < n and _is(toks[j], "<"):
+            # expand_multi: generic arguments of a type path (`std::io::StdinLock<'_>`)
+            depth = 0
+            while j < n:
+                if toks[j].kind == "punct" and toks[j].text in ("<", ">", ">>"):
+                    depth += {"<": 1, ">": -1, ">>": -2}[toks[j].text]
+                    if depth <= 0:
+                        return j + 1 if depth == 0 else None
+                j += 1
+            return None
         return j
     if frag == "tt":
         if t.kind == "punct" and t.text in OPEN:
@@ -221,6 +246,8 @@ def _transcribe(pat, binds, out):
             out.append(p[3])
         elif kind == "rep":
             names = [x for x in _vars(p[1]) if isinstance(binds.get(x), tuple)]
+            if not names and _MULTI and p[1] and all(q[0] == "attrvar" for q in p[1]):
+                continue      # `$(#[$attr])*`: attributes (doc comments, lints) are dropped, as for a bare `#[$attr]`
             if not names:
                 raise ExpandError("transcriber: a repetition without a repeated variable")
             lens = set(len(binds[x][1]) for x in names)
@@ -343,3 +370,115 @@ def expand(src, names, drop_defs_in_bodies=True):
                 keep[k] = False
     toks = [t for t, k in zip(toks, keep) if k]
     return _render(toks, drop_defs_in_bodies)
+
+
+# --------------------------------------------------------------------------- several rules per macro, macros that define macros
+
+def _definitions_multi(toks, names):
+    """{name: [(matcher tree, transcriber tree), ..]} (the rules in source order), and the token spans of all definitions"""
+    defs = {}
+    spans = []
+    i = 0
+    while i + 3 < len(toks):
+        if toks[i].kind == "ident" and toks[i].text == "macro_rules" and _is(toks[i + 1], "!") and toks[i + 2].kind == "ident":
+            name = toks[i + 2].text
+            j = _group_end(toks, i + 3)
+            end = j + 1
+            if end < len(toks) and _is(toks[end], ";"):
+                end += 1
+            spans.append((i, end, name))
+            if name in names:
+                if name in defs:
+                    raise ExpandError("macro %s: defined twice" % name)
+                body = toks[i + 4:j]
+                rules = []
+                b = 0
+                while b < len(body):
+                    if not (body[b].kind == "punct" and body[b].text in OPEN):
+                        raise ExpandError("macro %s: no matcher" % name)
+                    m_end = _group_end(body, b)
+                    if m_end + 2 >= len(body) or not _is(body[m_end + 1], "=>"):
+                        raise ExpandError("macro %s: `=>` expected" % name)
+                    t_open = m_end + 2
+                    t_end = _group_end(body, t_open)
+                    rules.append((_parse_pattern(body[b + 1:m_end], True), _parse_pattern(body[t_open + 1:t_end], False)))
+                    b = t_end + 1
+                    if b < len(body):
+                        if not _is(body[b], ";"):
+                            raise ExpandError("macro %s: `;` expected between rules" % name)
+                        b += 1
+                if not rules:
+                    raise ExpandError("macro %s: no rule" % name)
+                defs[name] = rules
+            i = end
+            continue
+        i += 1
+    return defs, spans
+
+
+def _expand_once_multi(toks, defs, spans):
+    out = []
+    changed = False
+    in_def = [False] * len(toks)
+    for a, b, _n in spans:
+        for k in range(a, b):
+            in_def[k] = True
+    i = 0
+    n = len(toks)
+    while i < n:
+        t = toks[i]
+        if (not in_def[i] and t.kind == "ident" and t.text in defs and i + 2 < n and _is(toks[i + 1], "!")
+                and toks[i + 2].kind == "punct" and toks[i + 2].text in OPEN):
+            j = _group_end(toks, i + 2)
+            args = toks[i + 3:j]
+            for matcher, transcriber in defs[t.text]:       # the first rule that matches, as rustc
+                binds = {}
+                r = _match(matcher, args, 0, binds)
+                if r is not None and r == len(args):
+                    binds.pop("$reps", None)
+                    _transcribe(transcriber, binds, out)
+                    break
+            else:
+                raise ExpandError("macro %s: no rule matches the invocation `%s`" % (t.text, " ".join(x.text for x in args[:12])))
+            i = j + 1
+            if i < n and _is(toks[i], ";"):
+                i += 1
+            changed = True
+            continue
+        out.append(t)
+        i += 1
+    return out, changed
+
+
+def expand_multi(src, names):
+    """like expand, for macros with SEVERAL rules (the first rule that matches is taken, as rustc does), `expr` fragments
+    of several tokens, and macros whose expansion DEFINES a macro named in `names` (html-escape: `escape_impl!` defines
+    `escape_text!` through the `$dollar:tt` idiom): the definitions are collected again after every round.  A name that
+    has no definition when the expansion is over is an ExpandError."""
+    global _MULTI
+    names = set(names)
+    toks = [t for t in tokenize(src) if t.kind != "eof"]
+    seen = set()
+    _MULTI = True
+    try:
+        for _round in range(8):
+            defs, spans = _definitions_multi(toks, names)
+            seen |= set(defs)
+            toks, changed = _expand_once_multi(toks, defs, spans)
+            if not changed:
+                break
+        else:
+            raise ExpandError("macro expansion does not terminate")
+    finally:
+        _MULTI = False
+    missing = names - seen
+    if missing:
+        raise ExpandError("macro_rules! %s: no definition in this file" % ", ".join(sorted(missing)))
+    _d, spans = _definitions_multi(toks, set())
+    keep = [True] * len(toks)
+    for a, b, n in spans:
+        if n in names:
+            for k in range(a, b):
+                keep[k] = False
+    toks = [t for t, k in zip(toks, keep) if k]
+    return _render(toks, True)
